@@ -349,6 +349,17 @@ func (x *Exec) callFuncValue(fr *Frame, st *State, ins ssa.Instruction, cc *ssa.
 		x.callCancel(st, fv.T)
 		return Value{}
 	}
+	if fv.T != nil && fv.T.kind == kApp && fv.T.Op == "mk_"+sortFn && txEndID != 0 {
+		if n, ok := isLitInt(fv.T.Args[0]); ok && n.IsInt64() && int(n.Int64()) == txEndID && len(args) == 1 {
+			// the function returned by sqlitex.Transaction: commits iff *errp == nil now
+			pt := cc.Args[0].Type().Underlying().(*types.Pointer)
+			e := x.loadPtr(st, args[0], pt.Elem())
+			st.setG("txCommitted", Eq(Acc(e, 0), Int(0)))
+			st.setG("txOpen", False)
+			st.setG("txEnded", True)
+			return Value{}
+		}
+	}
 	if fv.Clo == nil && fv.T != nil {
 		fv.Clo = x.closureOf(fv.T)
 	}
@@ -1114,6 +1125,9 @@ var volatileGhost = map[string]bool{"curAct": true}
 // only create new channels / contexts (entries of identities that existed at its entry are unchanged).
 func freshUnlessListed(g string) bool {
 	switch g {
+	case "stQ", "bT", "bI", "bB", "bKind", "psOf":
+		// statement recorders and prepared statements are local objects of the function that builds them
+		return true
 	case "ctxVal", "ctxNoCancel", "ctxExpires", "ctxCancelled", "chClosed", "chCloser", "chExt", "chCap", "chLen", "chSeenClosed", "chErrSeen":
 		return true
 	}
@@ -1354,7 +1368,7 @@ func (x *Exec) verifyFunction(con *Contract) {
 		ghostSorts[g.Name] = g.Sort
 	}
 	entry := st.clone()
-	env := x.specEnvFor(con, fn.Signature, fn.Pkg.Pkg, args, st, entry)
+	env := x.specEnvFor(con, fn.Signature, fnTypesPkg(fn), args, st, entry)
 	for _, g := range con.Ghosts {
 		if g.Init != nil {
 			st.ghost[g.Name] = env.eval(g.Init).T
@@ -1371,14 +1385,14 @@ func (x *Exec) verifyFunction(con *Contract) {
 	if con.Trusted {
 		return
 	}
-	x.pendingRegions = x.modRegions(con, x.specEnvFor(con, fn.Signature, fn.Pkg.Pkg, args, entry, entry))
+	x.pendingRegions = x.modRegions(con, x.specEnvFor(con, fn.Signature, fnTypesPkg(fn), args, entry, entry))
 	if x.pendingRegions == nil {
 		x.pendingRegions = []modRegion{}
 	}
 	_, _, fr := x.runFunction(st, fn, args, clo, nil, con, "")
 	// postconditions at each return site
 	for _, r := range fr.rets {
-		renv := x.specEnvFor(con, fn.Signature, fn.Pkg.Pkg, args, r.st, entry)
+		renv := x.specEnvFor(con, fn.Signature, fnTypesPkg(fn), args, r.st, entry)
 		bindResults(renv, con, fn.Signature, r.val)
 		for i, e := range con.Ensures {
 			lab := e.Label
@@ -1399,7 +1413,7 @@ func (x *Exec) verifyFunction(con *Contract) {
 // frameObligations: every heap array written is unchanged outside the modifies clause for
 // objects that existed at entry.
 func (x *Exec) frameObligations(con *Contract, fn *ssa.Function, args []Value, entry, final *State) {
-	env := x.specEnvFor(con, fn.Signature, fn.Pkg.Pkg, args, entry, entry)
+	env := x.specEnvFor(con, fn.Signature, fnTypesPkg(fn), args, entry, entry)
 	regions := x.modRegions(con, env)
 	byKey := map[string][]modRegion{}
 	ghostMod := map[string]bool{}
@@ -1489,7 +1503,7 @@ func (x *Exec) monitors(fr *Frame, st *State, key, rel, when string, args []Valu
 		if !(m.Callee == key || m.Callee == rel || strings.HasSuffix(key, "."+m.Callee)) {
 			continue
 		}
-		env := &SpecEnv{x: x, vars: map[string]SVal{}, st: st, old: fr.top.entry, pkg: fr.top.fn.Pkg.Pkg, lets: map[string]*Expr{}, free: x.freeOf[con], fr: fr.top}
+		env := &SpecEnv{x: x, vars: map[string]SVal{}, st: st, old: fr.top.entry, pkg: fnTypesPkg(fr.top.fn), lets: map[string]*Expr{}, free: x.freeOf[con], fr: fr.top}
 		// contract parameters of the function under verification remain visible
 		for i, p := range con.Params {
 			if i < len(fr.top.params) {
